@@ -8,10 +8,10 @@ From NV Require Proofs.EquivServer_proofs Proofs.EquivServer2_proofs.
 Import ListNotations.
 
 (* data_received *)
-Theorem data_received_tie : forall ip6 handler mw up ip fp s d,
-  gen_data_received send_error (handle_titan_url ip6 mw up ip fp) (handle_gemini ip6 handler mw ip fp)
-                    (process_titan_upload mw up ip fp) s d
-  = data_received ip6 handler mw up ip fp s d.
+Theorem data_received_tie : forall ip6 handler mw up ucf ip fp s d,
+  gen_data_received send_error (handle_titan_url ip6 mw up ucf ip fp) (handle_gemini ip6 handler mw ip fp)
+                    (process_titan_upload mw up ucf ip fp) s d
+  = data_received ip6 handler mw up ucf ip fp s d.
 Proof. exact EquivServer_proofs.data_received_tie. Qed.
 Print Assumptions data_received_tie.
 
@@ -22,72 +22,75 @@ Proof. exact EquivServer_proofs.send_error_tie. Qed.
 Print Assumptions send_error_tie.
 
 (* _handle_timeout: the callback of the request timer (it runs only when the timer is armed: loop.call_later) *)
-Theorem handle_timeout_tie : forall ip6 handler mw up ip fp s,
+Theorem handle_timeout_tie : forall ip6 handler mw up ucf ip fp s,
   timer s = TArmed ->
-  step ip6 handler mw up ip fp s ETimer = gen_handle_timeout (set_timer s TFired).
+  step ip6 handler mw up ucf ip fp s ETimer = gen_handle_timeout (set_timer s TFired).
 Proof. exact EquivServer_proofs.handle_timeout_tie. Qed.
 Print Assumptions handle_timeout_tie.
 
 (* connection_lost (asyncio calls it once, while the protocol still holds its transport) *)
-Theorem connection_lost_tie : forall ip6 handler mw up ip fp s,
+Theorem connection_lost_tie : forall ip6 handler mw up ucf ip fp s,
   tr s = true ->
-  step ip6 handler mw up ip fp s ELost = gen_connection_lost s.
+  step ip6 handler mw up ucf ip fp s ELost = gen_connection_lost s.
 Proof. exact EquivServer_proofs.connection_lost_tie. Qed.
 Print Assumptions connection_lost_tie.
 
 (* _handle_titan_url *)
-Theorem handle_titan_url_tie : forall ip6 mw up ip fp s url,
-  gen_handle_titan_url send_error (process_titan_upload mw up ip fp) mw up ip fp ip6 s url
-  = handle_titan_url ip6 mw up ip fp s url.
+Theorem handle_titan_url_tie : forall ip6 mw up ucf ip fp s url,
+  gen_handle_titan_url send_error (process_titan_upload mw up ucf ip fp) mw up ip fp ip6 s url
+  = handle_titan_url ip6 mw up ucf ip fp s url.
 Proof. exact EquivServer_proofs.handle_titan_url_tie. Qed.
 Print Assumptions handle_titan_url_tie.
 
 (* _process_titan_upload *)
-Theorem process_titan_upload_tie : forall mw up ip fp s,
-  gen_process_titan_upload send_error (start_upload up) mw up ip fp s = process_titan_upload mw up ip fp s.
+Theorem process_titan_upload_tie : forall mw up ucf ip fp s,
+  gen_process_titan_upload send_error (start_upload up ucf) mw up ip fp s = process_titan_upload mw up ucf ip fp s.
 Proof. exact EquivServer_proofs.process_titan_upload_tie. Qed.
 Print Assumptions process_titan_upload_tie.
 
-(* _start_titan_upload *)
-Theorem start_titan_upload_tie : forall mw up ip fp s,
-  gen_start_titan_upload mw up ip fp s = start_upload up s.
+(* _start_titan_upload.  The call of the upload handler is the oracle `upcall_of ucf` (Equiv/ServerGlue.v): for every value of
+   the model's up_call_fails - the call yields an awaitable, or fails with any message before one exists - the code's method,
+   including its `except Exception as e` clause, is the model's start_upload: the invocation is recorded, no task is created,
+   and the answer is the one a failing task gets (Model.ServerProto.upload_failed) *)
+Theorem start_titan_upload_tie : forall mw up ucf ip fp s,
+  gen_start_titan_upload send_error mw up ip fp (upcall_of ucf) s = start_upload up ucf s.
 Proof. exact EquivServer_proofs.start_titan_upload_tie. Qed.
 Print Assumptions start_titan_upload_tie.
 
 (* the four done-callbacks: the model's task_done, once the finished task has been taken off the pending list,
    is the code's callback applied to the task's (well-typed) result *)
-Theorem handle_middleware_result_tie : forall handler up s0 id rq rest,
+Theorem handle_middleware_result_tie : forall handler up ucf s0 id rq rest,
   take_task id (pending s0) = (Some (TMw (rq_line rq)), rest) ->
-  (forall allow text, task_done handler up s0 id (OMw allow text) =
+  (forall allow text, task_done handler up ucf s0 id (OMw allow text) =
      gen_handle_middleware_result send_error send_rejection (fun s r => route handler s (rq_line r)) (set_pending s0 rest) (TRet (allow, text)) rq) /\
-  (forall m, task_done handler up s0 id (ORaise m) =
+  (forall m, task_done handler up ucf s0 id (ORaise m) =
      gen_handle_middleware_result send_error send_rejection (fun s r => route handler s (rq_line r)) (set_pending s0 rest) (TExc m) rq).
 Proof. exact EquivServer2_proofs.handle_middleware_result_tie. Qed.
 Print Assumptions handle_middleware_result_tie.
 
-Theorem handle_titan_middleware_result_tie : forall handler up s0 id rest,
+Theorem handle_titan_middleware_result_tie : forall handler up ucf s0 id rest,
   take_task id (pending s0) = (Some TTitanMw, rest) ->
-  (forall allow text, task_done handler up s0 id (OMw allow text) =
-     gen_handle_titan_middleware_result send_error send_rejection (start_upload up) (set_pending s0 rest) (TRet (allow, text))) /\
-  (forall m, task_done handler up s0 id (ORaise m) =
-     gen_handle_titan_middleware_result send_error send_rejection (start_upload up) (set_pending s0 rest) (TExc m)).
+  (forall allow text, task_done handler up ucf s0 id (OMw allow text) =
+     gen_handle_titan_middleware_result send_error send_rejection (start_upload up ucf) (set_pending s0 rest) (TRet (allow, text))) /\
+  (forall m, task_done handler up ucf s0 id (ORaise m) =
+     gen_handle_titan_middleware_result send_error send_rejection (start_upload up ucf) (set_pending s0 rest) (TExc m)).
 Proof. exact EquivServer2_proofs.handle_titan_middleware_result_tie. Qed.
 Print Assumptions handle_titan_middleware_result_tie.
 
-Theorem handle_async_handler_result_tie : forall handler up s0 id rq rest,
+Theorem handle_async_handler_result_tie : forall handler up ucf s0 id rq rest,
   take_task id (pending s0) = (Some (THandler (rq_line rq)), rest) ->
-  (forall r, task_done handler up s0 id (OResp r) =
+  (forall r, task_done handler up ucf s0 id (OResp r) =
      gen_handle_async_handler_result send_error send_response (set_pending s0 rest) (TRet r) rq) /\
-  (forall m, task_done handler up s0 id (ORaise m) =
+  (forall m, task_done handler up ucf s0 id (ORaise m) =
      gen_handle_async_handler_result send_error send_response (set_pending s0 rest) (TExc m) rq).
 Proof. exact EquivServer2_proofs.handle_async_handler_result_tie. Qed.
 Print Assumptions handle_async_handler_result_tie.
 
-Theorem handle_titan_upload_result_tie : forall handler up s0 id rest,
+Theorem handle_titan_upload_result_tie : forall handler up ucf s0 id rest,
   take_task id (pending s0) = (Some TUpload, rest) ->
-  (forall r, task_done handler up s0 id (OResp r) =
+  (forall r, task_done handler up ucf s0 id (OResp r) =
      gen_handle_titan_upload_result send_error send_response (set_pending s0 rest) (TRet r)) /\
-  (forall m, task_done handler up s0 id (ORaise m) =
+  (forall m, task_done handler up ucf s0 id (ORaise m) =
      gen_handle_titan_upload_result send_error send_response (set_pending s0 rest) (TExc m)).
 Proof. exact EquivServer2_proofs.handle_titan_upload_result_tie. Qed.
 Print Assumptions handle_titan_upload_result_tie.
